@@ -2,6 +2,7 @@
 
 Metamorphic, engine vs engine, independent of the reference model:
   results(P ?(E)) + results(P !(E)) = results(P)   (multisets of full stacks incl. positions)
+  results(P ?{E} apply) + results(P !{E} apply) = results(P)   (the block spelling, also bound to ?name / !name)
   results(P ?w)   + results(P !w)   = results(P)   for every assertion word pair of both
                                                     vocabularies, on several operand types
   results(P (E1 op E2)) + results(P !((E1 op E2))) = results(P)
@@ -157,6 +158,13 @@ def work_core(task):
                 nt = split_check(ev, "?(E)/!(E)", (P, E), rp, ry, rn, deep and (eff != 0 or varied), "%s ?(%s)" % (P, E))
                 if nt and rnd.random() < 0.01:
                     ev.sample({"P": P[:150], "E": E[:150], "P_results": len(rp["res"]), "yes": len(ry.get("res", [])), "no": len(rn.get("res", []))})
+                # the block spelling of the same assertion, applied on the spot and through a name
+                ry, rn = run(drv, "%s ?{%s} apply" % (P, E)), run(drv, "%s !{%s} apply" % (P, E))
+                split_check(ev, "?{E}/!{E}", (P, E), rp, ry, rn, deep and (eff != 0 or varied), "%s !{%s} apply" % (P, E))
+                if i % 4 == 0:
+                    ry = run(drv, "let ?holds := ?{%s}; let !holds := !{%s}; %s ?holds" % (E, E, P))
+                    rn = run(drv, "let ?holds := ?{%s}; let !holds := !{%s}; %s !holds" % (E, E, P))
+                    split_check(ev, "?name/!name", (P, E), rp, ry, rn, deep, "let ?holds := ?{%s}; let !holds := !{%s}; %s !holds" % (E, E, P))
                 # infix
                 e2, _ = g.one_value(list(pst), G.Scope(scope), 1)
                 e1, _ = g.one_value(list(pst), G.Scope(scope), 1)
